@@ -913,6 +913,33 @@ func genCloneCase(cx *CheckCtx, i int) *Case {
 	}
 	regs := []int{1}
 	c.Ops = append(c.Ops, Op{Kind: OpStmt, S: 1, Items: toks()})
+	if r.Chance(12) {
+		// a deep CHAIN of clones of clones, each extended by a few tokens (x = x.Clone().Dot(…).Call()
+		// in a loop), then sibling clones of the deepest one extended alternately: depth thresholds
+		depth := 8 + r.Intn(40)
+		short := func() []SItem {
+			var out []SItem
+			for j := 0; j < 1+r.Intn(3); j++ {
+				out = append(out, one())
+			}
+			return out
+		}
+		for k := 0; k < depth; k++ {
+			nr := len(regs) + 1
+			c.Ops = append(c.Ops, Op{Kind: OpClone, S: nr, S2: regs[len(regs)-1]}, Op{Kind: OpApp, S: nr, Items: short()})
+			regs = append(regs, nr)
+		}
+		deep := regs[len(regs)-1]
+		a, b := deep+1, deep+2
+		c.Ops = append(c.Ops, Op{Kind: OpClone, S: a, S2: deep}, Op{Kind: OpClone, S: b, S2: deep})
+		for k := 0; k < 2+r.Intn(4); k++ {
+			c.Ops = append(c.Ops, Op{Kind: OpApp, S: pick(r, []int{a, b, deep}), Items: short()})
+		}
+		for _, rg := range []int{a, b, deep, regs[len(regs)/2]} {
+			observe(rg)
+		}
+		return c
+	}
 	steps := 5 + r.Intn(cx.N(25, 55))
 	for s := 0; s < steps; s++ {
 		switch r.Intn(5) {
